@@ -39,7 +39,17 @@ def check(ctx):
     c10.rules_prepare_frame(ctx, "R3")
     # R5: merged update has no effect besides its components' update
     c12.check_loop_method(ctx, F, "R5", "update", mutable=False)
-    ctx.notes.append("R5 second half (the state animator writes current_values only through Timeline::update) is C05/R8 + C06/R2")
+    # R6: in a state animator the values are written only by Timeline::update of the current state's timeline (so a property
+    # that timeline does not animate keeps what earlier states left in it): advance's summary and the animator's state
+    # fields (C06/R1-R2), the writers of each field (C05/R8)
+    from rules import c05, c06, animator_table
+    before, nn = len(ctx.obs), len(ctx.notes)
+    c06.check(ctx)
+    c05.check_writers(ctx, F, animator_table.roles_of(F))
+    del ctx.notes[nn:]
+    for o in ctx.obs[before:]:
+        o["key"] = o["key"].replace("C08/%s/" % o["rule"], "C08/R6/%s/" % o["rule"].lower(), 1)
+        o["rule"] = "R6"
     ctx.notes.append("not decided: nothing material; the witness family bounds 'all struct shapes'")
 
 
